@@ -67,6 +67,7 @@ pub struct Stats {
 pub struct Shared {
     bound: u32,
     all_points: bool,
+    delay_mode: bool,
     stack: Vec<Frame>,
     cursor: usize,
     cur_cost: u32,
@@ -195,6 +196,7 @@ impl Shared {
         Shared {
             bound: cfg.bound,
             all_points: cfg.all_points,
+            delay_mode: cfg.delay_mode,
             stack: Vec::new(),
             cursor: 0,
             cur_cost: 0,
@@ -308,7 +310,9 @@ impl Scheduler for PbDfs {
         ids.sort_by_key(|x| x.0);
         let cur = current_task.map(usize::from);
         let cur_pos = cur.and_then(|c| ids.iter().position(|x| x.0 == c));
-        let preemptible = cur_pos.is_some();
+        // delay-bounded mode: every deviation from the default choice costs 1,
+        // also at points where the running task blocked or ended
+        let preemptible = cur_pos.is_some() || s.delay_mode;
         if let Some(p) = cur_pos {
             if !(s.all_points || marked) {
                 return Some(ids[p].1);
@@ -341,6 +345,9 @@ pub struct Cfg {
     pub max_execs: u64,
     pub deadline: Option<Instant>,
     pub fixed: Option<Vec<u16>>,
+    /// delay bounding: `bound` limits all deviations from the default
+    /// (non-preemptive, lowest-id-first) scheduler, not only preemptions
+    pub delay_mode: bool,
 }
 
 impl Default for Cfg {
@@ -351,6 +358,7 @@ impl Default for Cfg {
             max_execs: u64::MAX,
             deadline: None,
             fixed: None,
+            delay_mode: false,
         }
     }
 }
